@@ -3,6 +3,7 @@ import QExPy.Driver.Json
 import QExPy.Model.Units
 import QExPy.Model.UnitParse
 import QExPy.Model.UnitDefs
+import QExPy.Model.UnitWritten
 import QExPy.Model.ParseSession
 namespace QExPy.Drv
 open Lean QExPy QExPy.U
@@ -61,22 +62,26 @@ def getDefsOrReqs (j : Json) : R Defs := do
   | .ok r => pure (runReqs [] (← getReqs r))
   | .error _ => getDefs (fieldD j "defs" (Json.arr #[]))
 
-private partial def getTree (j : Json) : R UTree := do
+/-- a formula as typed: `["leafw", s]` is a quantity created with the unit STRING `s` (parsed by
+    the model's parser, as the constructor does), `["leaf", units]` one whose exponent map is
+    given directly -/
+private partial def getTree (j : Json) : R WTree := do
   let a ← getArr j
   let tag ← getStr a[0]!
   match tag with
-  | "leaf" => do pure (UTree.leaf (← getUnits a[1]!))
-  | "const" => pure UTree.const
+  | "leaf" => do pure (WTree.leafU (← getUnits a[1]!))
+  | "leafw" => do pure (WTree.leafS (← getStr a[1]!).toList)
+  | "const" => pure WTree.const
   | "powc" => do
     let t ← getTree a[1]!
     let k ← getRat a[2]! a[3]!
-    pure (UTree.powc t k)
+    pure (WTree.powc t k)
   | "node" => do
     let op ← getStr a[1]!
     let args ← (← getArr a[2]!).toList.mapM getTree
     match args with
-    | [x] => pure (UTree.un op x)
-    | [x, y] => pure (UTree.bin op x y)
+    | [x] => pure (WTree.un op x)
+    | [x, y] => pure (WTree.bin op x y)
     | _ => throw "node arity"
   | t => throw s!"unknown tree tag {t}"
 
@@ -99,17 +104,20 @@ def cmdUPrint (j : Json) : R Json := do
   let back := if s.isEmpty then some [] else parse s
   pure (obj [("s", Json.str (String.ofList s)), ("back", putOptUnits back)])
 
-/-- {"cmd":"utree","defs":[..],"tree":..,"syms":[..]} → `_unit` of the result, number of
-    mismatch warnings, and the dimensional-analysis value `dimT` at every symbol of `syms` -/
+/-- {"cmd":"utree","defs":[..] | "reqs":[..],"tree":..,"syms":[..]} → `_unit` of the result of
+    the formula as typed (leaf unit strings parsed first: `unitOfW`), number of mismatch warnings, and the dimensional-analysis value `dimT` at every symbol of `syms` -/
 def cmdUTree (j : Json) : R Json := do
   let defs ← getDefsOrReqs j
-  let t ← getTree (← field j "tree")
+  let w ← getTree (← field j "tree")
   let syms ← (← getArr (fieldD j "syms" (Json.arr #[]))).toList.mapM getStr
+  match w.read with
+  | none => pure (obj [("ok", Json.bool false), ("unread", Json.bool true), ("dim", Json.arr #[])])
+  | some t =>
   let dims := syms.map fun s =>
     Json.arr ((Json.str s :: putRat (dimT defs.reverse t s.toList)).toArray)
   let expanded (u : Units) := syms.map fun s =>
     Json.arr ((Json.str s :: putRat (dimU defs.reverse u s.toList)).toArray)
-  match unitOf defs t with
+  match unitOfW defs w with
   | some (u, _, w) =>
     pure (obj [("ok", Json.bool true), ("units", putUnits u), ("warn", (w : Json)),
       ("expanded", Json.arr (expanded u).toArray), ("dim", Json.arr dims.toArray)])
